@@ -76,6 +76,13 @@ C07Tags(r) ==
        \* (ConstrainedFDLayout::moveTo), which may have dropped a different member of the contradictory group
        {IF \E j \in rep : j \in DOMAIN r.cons /\ r.cons[j].kind \in {1, 2, 3} /\ r.cons[i].kind \in {1, 2, 3} /\ r.cons[j].dim = r.cons[i].dim /\ Holds(r, rep, r.cons[j])
         THEN <<"unreported-constraint-violated", "a-reported-constraint-of-that-dimension-holds-instead">>
+        \* the same mechanism against an unreported opponent: overlap avoidance is on, the two nodes of the violated separation overlap on the
+        \* other axis and stand in the opposite order at least their non-overlap distance apart (the pair's non-overlap constraint holds instead)
+        ELSE IF r.cons[i].kind = 1 /\ r.flags % 2 = 1 /\
+                LET l == r.cons[i].a[1] + 1  rr == r.cons[i].a[2] + 1  d == r.cons[i].dim + 1  o == 3 - d IN
+                    /\ 2 * Abs(r.pos[l][o] - r.pos[rr][o]) < (r.size[l][o] + r.size[rr][o]) * S
+                    /\ 2 * (r.pos[l][d] - r.pos[rr][d]) >= (r.size[l][d] + r.size[rr][d]) * S - 2 * TOL
+             THEN <<"unreported-constraint-violated", "the-non-overlap-constraint-of-the-pair-holds-instead">>
         \* the same mechanism when what was reported is one of the library's own non-overlap constraints (index 0 in the record)
         ELSE IF 0 \in rep /\ r.flags % 2 = 1 THEN <<"unreported-constraint-violated", "a-non-overlap-constraint-was-reported-instead">>
         ELSE <<"unreported-constraint-violated", KindName(r.cons[i].kind)>> : i \in {i \in DOMAIN r.cons : i \notin rep /\ ~Holds(r, rep, r.cons[i])}})
